@@ -51,7 +51,7 @@ META = {
     "design_ref": "5.7 C07",
 }
 
-CACHE_ROOT = os.path.join(tlc.VERIF, ".cache", "c07")
+CACHE_ROOT = os.environ.get("VERIF_C07_CACHE") or os.path.join(tlc.VERIF, ".cache", "c07")
 PYX = ["bytesio", "cython_utils", "deserializers", "obj_parser", "parsing", "row_parser"]
 PY = ["cqltypes", "protocol", "util"]
 SRC_EXT = (".py", ".pyx", ".pxd", ".c", ".h")
